@@ -83,6 +83,63 @@ vacuous). -/
 theorem unskipped_is_recorded (l : Logger) (m : Msg) : (logMsg l false m).2.isSome = true := by
   cases l <;> simp [logMsg] <;> (repeat' split) <;> simp
 
+/-- Every logger, every option combination, every verdict of the trusted parsers and
+decompressors — in particular when the logger gives up with an error because the body does not
+parse as its declared Content-Type or does not decode as its Content-Encoding: the message handed
+on is the message received. -/
+theorem logger_identity_with_errors (t : Trusted) (l : Logger) (skip : Bool) (m : Msg) :
+    (logMsgT t l skip m).msg = m := by
+  cases l <;> cases skip <;> simp [logMsgT, snapshotMsg_id, harReadPost_id] <;> (repeat' split) <;> simp
+
+/-- A logger that returned an error recorded nothing (HAR: no entry / no response in the entry;
+text logger: no log call). -/
+theorem logger_error_records_nothing (t : Trusted) (l : Logger) (skip : Bool) (m : Msg)
+    (he : (logMsgT t l skip m).err = true) : (logMsgT t l skip m).record = none := by
+  cases l <;> cases skip <;> simp [logMsgT] at he ⊢ <;> (repeat' split) <;> simp_all
+
+/-- Skip-logging with the error paths: nothing recorded and no error either (the loggers return
+before they look at the body). -/
+theorem skip_logging_records_nothing_with_errors (t : Trusted) (l : Logger) (m : Msg)
+    (hl : ∀ o, l ≠ .snapshot o) :
+    (logMsgT t l true m).record = none ∧ (logMsgT t l true m).err = false := by
+  cases l <;> simp [logMsgT] at *
+
+/-- An unmarked exchange on which the logger did not fail is recorded. -/
+theorem unskipped_without_error_is_recorded (t : Trusted) (l : Logger) (m : Msg)
+    (he : (logMsgT t l false m).err = false) : (logMsgT t l false m).record.isSome = true := by
+  cases l <;> simp [logMsgT] at he ⊢ <;> (repeat' split) <;> simp_all
+
+/-- When the trusted parsers accept the body (and it is there to be decoded) the refined model is
+`logMsg`: no error, same message, same record. The headers-only text logger is excluded: with
+`decode` its gzip reader is opened on the empty body section and fails. -/
+theorem logMsgT_ok (l : Logger) (skip : Bool) (m : Msg) (hb : m.body.isSome = true)
+    (hh : ∀ d, l ≠ .text true d) :
+    logMsgT ⟨true, true, true⟩ l skip m = ⟨(logMsg l skip m).1, (logMsg l skip m).2, false⟩ := by
+  have hc : captures noOpts m = true := by simp [captures, noOpts, hb]
+  cases l <;> cases skip <;>
+    simp [logMsgT, logMsg, decodesOn, decodeOpensOn, hc, harReadPost_id, snapshotMsg_id] <;>
+    (repeat' split) <;> first | rfl | simp_all [captures]
+
+/-- Witness of an error path: an urlencoded upload with an invalid percent-escape under the HAR
+logger — error returned, nothing recorded, message unchanged. -/
+def badForm : Msg :=
+  { witness with te := [], cl := 5, trailer := none, body := some (strBytes "a=%zz"),
+                 hdr := [(ctKey, strBytes "application/x-www-form-urlencoded")] }
+
+example : (logMsgT ⟨false, true, true⟩ (.har .all .all) false badForm).err = true ∧
+    (logMsgT ⟨false, true, true⟩ (.har .all .all) false badForm).record = none ∧
+    (logMsgT ⟨false, true, true⟩ (.har .all .all) false badForm).msg = badForm := by decide
+
+/-- …and of the decode error paths: a response announced as gzip whose body is not. -/
+def badGzip : Msg :=
+  { witness with isReq := false, code := 200, te := [], cl := 3, trailer := none,
+                 hdr := [(ceKey, gzipTok)] }
+
+example : (logMsgT ⟨true, false, false⟩ (.har .all .all) false badGzip).err = true ∧
+    (logMsgT ⟨true, false, false⟩ (.text false true) false badGzip).err = true ∧
+    (logMsgT ⟨true, false, false⟩ (.text false false) false badGzip).err = false ∧
+    (logMsgT ⟨true, false, false⟩ (.text false true) false badGzip).msg = badGzip := by decide
+
 example : captures noOpts witness = true ∧ witness.trailer ≠ none ∧ isChunked witness.te = true := by decide
 example : ∃ o m, captures o m = true ∧ m.trailer = none ∧ isChunked m.te = true :=
   ⟨noOpts, { witness with trailer := none }, by decide⟩
